@@ -38,13 +38,15 @@ WeightOK(r) == r.weight.cls \in {"absent", "float", "int"}
 
 Valid(r) == LimitOK(r) /\ TtlOK(r) /\ PolicyOK(r) /\ MemOK(r) /\ ScopeOK(r) /\ WeightOK(r) /\ r.unknown = "absent"
 
-\* units are powers of 1024
+\* units are powers of 1024.  TLC has 32-bit integers: limits of 2 GiB and more are represented by
+\* Huge ("larger than anything that is ever stored"), without evaluating the overflowing product
+Huge == 2147483647
 MemBytes(r) ==
   CASE r.maxmem.cls = "absent" -> 0
     [] r.maxmem.cls \in {"int", "strnum"} -> r.maxmem.n
-    [] r.maxmem.cls \in {"kb", "lowerkb"} -> r.maxmem.n * KB
-    [] r.maxmem.cls = "mb" -> r.maxmem.n * MB
-    [] r.maxmem.cls = "gb" -> r.maxmem.n * MB * KB
+    [] r.maxmem.cls \in {"kb", "lowerkb"} -> IF r.maxmem.n >= 2 * MB THEN Huge ELSE r.maxmem.n * KB
+    [] r.maxmem.cls = "mb" -> IF r.maxmem.n >= 2 * KB THEN Huge ELSE r.maxmem.n * MB
+    [] r.maxmem.cls = "gb" -> IF r.maxmem.n >= 2 THEN Huge ELSE r.maxmem.n * MB * KB
 
 Flavour(r) == IF r.macro = "async" THEN "async"
               ELSE IF r.scope.cls = "str" /\ r.scope.s = "thread" THEN "thread" ELSE "sync"
